@@ -69,8 +69,16 @@ def maybe_download(url: str,
       r.raise_for_status()
       length = int(r.headers['content-length'])
       block_size = 1 << 18
+      num_bytes = 0
       for _ in progress_((length + block_size - 1) // block_size):
-        fo.write(r.raw.read(block_size))
+        block = r.raw.read(block_size)
+        num_bytes += len(block)
+        fo.write(block)
+      if num_bytes != length:
+        # E.g. the connection was closed inside the last block: the short read
+        # raises nothing by itself, and there is no further read that would.
+        raise IOError(
+            f'Expected {length} bytes from {url!r} but received {num_bytes}.')
     os.rename(path + '.partial', path)
   return path
 
